@@ -144,7 +144,7 @@ var BuiltinRefs = map[string]func(recv Value, args []Value) Ref{
 		if n < 0 {
 			return valOrErr(Str(""))
 		}
-		if n > 0 && int64(len(r.S))*n > 1<<24 {
+		if n > 0 && len(r.S) > 0 && n > (1<<24)/int64(len(r.S)) {
 			// oversized: an error is fine; the harness never asks for the value
 			return Ref{ErrOK: true, Accept: nil}
 		}
